@@ -100,6 +100,42 @@ theorem lenTx_eq (t : Tx) : lenTx t = (encTx t).length := by
       | none => simp [lenBase_eq]
       | some p => simp [lenBase_eq, lenPrunable_eq]
 theorem lenHeader_eq (h : Header) : lenHeader h = (encHeader h).length := by
-  simp [lenHeader, encHeader, lenVarint_eq, lenBytes_eq, encUintLE, leBytes]; omega
+  simp [lenHeader, lenUint, encHeader, lenVarint_eq, lenBytes_eq, encUintLE, leBytes]; omega
 theorem lenBlock_eq (b : Block) : lenBlock b = (encBlock b).length := by
   simp [lenBlock, encBlock, lenHeader_eq, lenTx_eq, lenVec_eq lenBytes id lenBytes_eq']; omega
+
+/-! fixed-width integers, `bool`, `RctType`: the constant the Rust returns = the number of bytes the model encoder writes -/
+theorem leBytes_length' (n k : Nat) : (leBytes n k).length = k := by simp [leBytes]
+theorem lenUint_eq (k n : Nat) : lenUint k = (encUintLE k n).length := by simp [lenUint, encUintLE, leBytes]
+theorem lenInt_eq (k : Nat) (v : Int) : lenUint k = (encIntLE k v).length := by simp [lenUint, encIntLE, leBytes]
+theorem lenBool_eq (v : Bool) : lenBool v = (encBool v).length := rfl
+theorem lenRctType_eq (ty : Nat) : lenRctType ty = (encRctType ty).length := rfl
+
+/-! extra sub-fields: the `usize` returned by `SubField::consensus_encode` = the number of bytes it writes -/
+theorem sum_map_const_one {α} (xs : List α) : (xs.map fun _ => 1).sum = xs.length := by
+  induction xs with
+  | nil => rfl
+  | cons x xs ih => simp [ih]; omega
+theorem length_flatten_singletons (l : Bytes) : ((l.map fun b => [b]).flatten).length = l.length := by
+  induction l with
+  | nil => rfl
+  | cons a t ih => simp only [List.map_cons, List.flatten_cons, List.length_append, ih, List.length_cons, List.length_nil]; omega
+theorem length_flatten_id (ks : List Bytes) : ((ks.map id).flatten).length = (ks.flatten).length := by simp
+theorem lenVecU8_eq (n : Bytes) : lenVec (fun _ => lenUint 1) n = (encVarint n.length ++ n).length := by
+  rw [lenVec_eq (fun _ => lenUint 1) (fun b : UInt8 => [b]) (fun _ => rfl) n]
+  unfold encVec
+  rw [List.length_append, List.length_append, length_flatten_singletons]
+theorem lenVecKeys_eq (ks : List Bytes) : lenVec lenBytes ks = (encVarint ks.length ++ ks.flatten).length := by
+  rw [lenVec_eq lenBytes id lenBytes_eq' ks]
+  unfold encVec
+  rw [List.length_append, List.length_append, length_flatten_id]
+theorem lenSub_eq (sf : Extra.SubField) : Extra.lenSub sf = (Extra.encSub sf).length := by
+  cases sf with
+  | padding n =>
+    simp only [Extra.lenSub, Extra.encSub, lenUint, foldl_add_eq, sum_map_const_one]
+    simp; omega
+  | txPub k => simp [Extra.lenSub, Extra.encSub, lenUint, lenBytes_eq]; omega
+  | nonce n => simp only [Extra.lenSub, Extra.encSub]; rw [lenVecU8_eq]; simp only [List.length_cons, lenUint]; omega
+  | mergeMining d h => simp [Extra.lenSub, Extra.encSub, lenUint, lenBytes_eq, lenVarint_eq]; omega
+  | addKeys ks => simp only [Extra.lenSub, Extra.encSub, lenVecKeys_eq, List.length_cons, lenUint]; omega
+  | minerGate d => simp only [Extra.lenSub, Extra.encSub]; rw [lenVecU8_eq]; simp only [List.length_cons, lenUint]; omega
